@@ -461,7 +461,40 @@ def guard_block_of(b, ret_block):
     return ret_block
 
 
-RULES = [("permutation", rule_permutation), ("noninterference", rule_noninterference), ("windows", rule_windows), ("cut", rule_cut), ("terminal", rule_terminal)]
+def rule_root_result(ctx):
+    """A root search that ran to completion records its result: in alpha_beta_start every path to a return either had no
+    move to search, was cut by an abort test, or passes the store of (best_score, best_move) that iter_deep reports.  A
+    shortcut that returns a move without recording it makes the engine fall back to an arbitrary legal move."""
+    ix = ctx.ix
+    b = ctx.body(C.ALPHA_BETA_START)
+    sym = ctx.sym(b)
+    stores = {bi for bi, i, s in b.stmts() if fields_of(s["lhs"])[-2:] == ("info", "best_move")}
+    score_stores = {bi for bi, i, s in b.stmts() if fields_of(s["lhs"])[-2:] == ("info", "best_score")}
+    ctx.check(bool(stores) and stores == score_stores, "%s:score-and-move-stored-together" % C.ALPHA_BETA_START, "best_score and best_move are stored in the same blocks", b.where(min(stores) if stores else 0),
+              bad_what="best_move is stored in blocks %s, best_score in %s" % (sorted(stores), sorted(score_stores)))
+    forbidden = set(C.abort_edges(ix, b))
+    nomove = set()
+    for blk in b.blocks:
+        if blk.cleanup or blk.term["k"] != "switch":
+            continue
+        sc = C.switch_cond(b, sym, blk.idx)
+        if sc is None:
+            continue
+        e, neg = sc
+        f, tr = C.switch_edges(blk.term)
+        if e[0] == "call" and e[1].endswith("Vec::is_empty") and "get_all_moves" in expr_str(e):
+            nomove |= {(blk.idx, t) for t in (f if neg else tr)}
+        if e[0] == "bin" and e[1] == "Eq" and e[2] == ("var", "total_legal_moves") and e[3][:2] == ("const", 0):
+            nomove |= {(blk.idx, t) for t in (f if neg else tr)}
+    ctx.check(len(nomove) >= 2, "%s:no-move-exits" % C.ALPHA_BETA_START, "the two `nothing to search` exits (no pseudo-legal move, no legal move) are recognised", b.where(0),
+              bad_what="cannot find the `moves.is_empty()` / `total_legal_moves == 0` exits")
+    reach = C.reach_avoiding(b, 0, removed_blocks=stores, forbidden_edges=forbidden | nomove)
+    ctx.check(mir.EXIT not in reach, "%s:completed-search-records-its-result" % C.ALPHA_BETA_START,
+              "every return of alpha_beta_start that is not an abort or a position without moves passes the store of (best_score, best_move)", b.where(0),
+              bad_what="alpha_beta_start can return from a completed iteration without recording (best_score, best_move): iter_deep then reports the previous iteration's move or an arbitrary legal move")
+
+
+RULES = [("root-result", rule_root_result), ("permutation", rule_permutation), ("noninterference", rule_noninterference), ("windows", rule_windows), ("cut", rule_cut), ("terminal", rule_terminal)]
 
 
 def run(tier):
